@@ -70,14 +70,15 @@ var c08Independence = overlayTest{Name: "alone-vs-together-small", Level: "bound
 
 func init() {
 	propertyPlans["C06"] = &PropertyPlan{ID: "C06",
-		AlsoFuncs: []string{"snap.SnapPolygon", "mapslicehelp.RemoveSequences", "mapslicehelp.LastMatch", "mapslicehelp.DeleteFromSliceByIndex", "mapslicehelp.ReverseClone", "snap.ringsAreEqual", "snap.kmpSearchAll"},
+		AlsoFuncs: []string{"snap.SnapPolygon", "mapslicehelp.RemoveSequences", "mapslicehelp.LastMatch", "mapslicehelp.DeleteFromSliceByIndex", "mapslicehelp.ReverseClone", "snap.ringsAreEqual", "snap.kmpSearchAll", "snap.dedupeInnersOuters", "snap.reverseWindingOrderIfConfigured", "snap.ringContains", "geomhelp.RayIntersect", "geomhelp.Shoelace"},
 		NotDecided: []string{
-			"that the bodies of kmpDeduplicate, splitRing, dedupeInnersOuters, matchInnersToPolygons, sortPolyIdxsByOuterAreaDesc, ringContains neither panic nor loop: outside the verifier's reach (append into a re-sliced ring, ordered/sorted map libraries), only the bounded stand-ins ring-assembly-small-alphabet and snap-total-small. Their helpers kmpTable, kmpSearch, kmpSearchAll, RemoveSequences, ReverseClone, DeleteFromSliceByIndex, LastMatch, ringsAreEqual, ensureCorrectWindingOrder, outersToPolygons ARE proved safe and terminating",
+			"that the bodies of kmpDeduplicate, splitRing, matchInnersToPolygons, sortPolyIdxsByOuterAreaDesc neither panic nor loop: outside the verifier's reach (append into a re-sliced ring; indices read back from ordered/sorted map library objects), only the bounded stand-ins ring-assembly-small-alphabet and snap-total-small. Their helpers kmpTable, kmpSearch, kmpSearchAll, RemoveSequences, ReverseClone, DeleteFromSliceByIndex, LastMatch, ringsAreEqual, ringContains, RayIntersect, Shoelace, ensureCorrectWindingOrder, outersToPolygons ARE proved safe and terminating, and so are dedupeInnersOuters (its own indexing and its i / j loops; the only panic left in it is ringsAreEqual on two empty rings, characterised by a panics clause) and reverseWindingOrderIfConfigured",
+			"termination of the walk over the linked list of the ordered-map library in dedupeInnersOuters (for p := Oldest(); p != nil; p = p.Next()): the library object is opaque, the list is assumed finite",
 			"time bound (polynomial in the vertex count): termination of every loop of the verified functions is proved by decreases clauses, no complexity statement",
 			"tile matrices whose pixel level exceeds 32: known finding F6 (excluded by the precondition of SnapPolygon's contract)",
 			"polygons inside the extent but outside the pixel grid (the strip of the reported deviation at the right / top edge of grids that do not divide evenly): known finding F10; the claim is for polygons inside the GRID (C09 makes the code reject the others)"},
 		Assumptions: []string{"preconditions of SnapPolygon's contract (ids in [0,1000], indexable tile matrix set, level <= 32, |ordinate| < 2e8, bounding box of matrix 0 at least as tall as the grid square)",
-			"trusted leaves ensureCorrectWindingOrder, cleanupNewRing, dedupeInnersOuters, outersToPolygons, matchInnersToPolygons, reverseWindingOrderIfConfigured: only that they return (or panic) without touching the index; callers treat their panic as possible"},
+			"trusted leaves kmpDeduplicate, splitRing, matchInnersToPolygons (ring assembly) and CountVals (count over an opaque library list): only that they return (or panic) without touching the index; callers treat their panic as possible", "wk8/go-ordered-map objects are opaque: constructors, Set, Len, Oldest, Next return arbitrary values, do not panic and have no effect on program state; math.Nextafter(x, +Inf) > x; slices.Reverse reverses in place"},
 		Extra: func(cc *checkCtx) *extraResult { return cc.runOverlayTests([]overlayTest{ringAssembly, totalSmall}) },
 		Demos: []findingDemo{{ID: "F6", Src: "f6_level_above_32_test.go", PkgRel: "snap", Run: "^TestGvcFindingF6$"},
 			{ID: "F9", Src: "f9_overlapping_removal_ranges_test.go", PkgRel: "snap", Run: "^TestGvcFindingF9$"},
